@@ -746,6 +746,74 @@ hex_to_integer(const CharT* s, std::size_t length, T& n)
 
 #if defined(JSONCONS_HAS_STD_FROM_CHARS) && JSONCONS_HAS_STD_FROM_CHARS
 
+namespace detail {
+
+    // For a decimal literal that from_chars reports as out of range: true if its magnitude
+    // is below 1 (underflow towards zero), false if it is too large (overflow).
+    inline bool decstr_underflows(const char* s, const char* last) noexcept
+    {
+        if (s < last && (*s == '-' || *s == '+'))
+        {
+            ++s;
+        }
+        long long first_nonzero_exp = 0; // decimal exponent of the first non-zero digit
+        bool found = false;
+        long long int_digits = 0;
+        const char* p = s;
+        for (; p < last && *p >= '0' && *p <= '9'; ++p)
+        {
+            ++int_digits;
+        }
+        long long pos = 0;
+        for (const char* q = s; q < p; ++q, ++pos)
+        {
+            if (*q != '0')
+            {
+                first_nonzero_exp = int_digits - 1 - pos;
+                found = true;
+                break;
+            }
+        }
+        if (p < last && *p == '.')
+        {
+            ++p;
+            long long frac_pos = 0;
+            for (; p < last && *p >= '0' && *p <= '9'; ++p, ++frac_pos)
+            {
+                if (!found && *p != '0')
+                {
+                    first_nonzero_exp = -(frac_pos + 1);
+                    found = true;
+                }
+            }
+        }
+        long long exp10 = 0;
+        if (p < last && (*p == 'e' || *p == 'E'))
+        {
+            ++p;
+            bool neg = false;
+            if (p < last && (*p == '-' || *p == '+'))
+            {
+                neg = *p == '-';
+                ++p;
+            }
+            for (; p < last && *p >= '0' && *p <= '9'; ++p)
+            {
+                if (exp10 < 1000000000LL)
+                {
+                    exp10 = exp10*10 + (*p - '0');
+                }
+            }
+            if (neg)
+            {
+                exp10 = -exp10;
+            }
+        }
+        return found && (first_nonzero_exp + exp10) < 0;
+    }
+
+} // namespace detail
+
 inline to_number_result<char> decstr_to_double(const char* s, std::size_t length, double& val) 
 {
     const char* last = s+length;
@@ -761,7 +829,14 @@ inline to_number_result<char> decstr_to_double(const char* s, std::size_t length
     if (res.ec == std::errc::result_out_of_range)
     {
         bool negative = (s < last && *s == '-') ? true : false;
-        val = negative ? -HUGE_VAL : HUGE_VAL;
+        if (detail::decstr_underflows(s, last))
+        {
+            val = negative ? -0.0 : 0.0;
+        }
+        else
+        {
+            val = negative ? -HUGE_VAL : HUGE_VAL;
+        }
     }
 
     return to_number_result<char>{res.ptr,res.ec};
